@@ -69,7 +69,7 @@ for p in progs:
 
 HEADER = ("From Coq Require Import List ZArith NArith PArith Bool.\nImport ListNotations.\n"
           "Require Import Verif.Model.C01_IRSem Verif.Model.C01_Syntax Verif.Model.C01_Check Verif.Model.C01_SSA.\n"
-          "Open Scope Z_scope.\nDefinition fuel : nat := N.to_nat 400000.\n\n")
+          "Open Scope Z_scope.\nDefinition fuel : nat := N.to_nat 400000.\n\n")   # = FUEL below
 files = {}
 batch = []
 for i, p in enumerate(okprogs):
@@ -92,7 +92,10 @@ def balanced(s, i):
                 return s[i:j + 1]
     return s[i:]
 
+FUEL = 400000
 evaluations = 0
+max_steps = 0
+fuel_cases = []
 okcount = 0
 discards = {"fuel": 0, "unsupported": 0}
 unsupp_codes = {}
@@ -130,6 +133,9 @@ for name, (text, batch) in files.items():
                 else:
                     mismatches.append((p, fm, -1, "package initialisation failed in the model: " + val[:300]))
                 continue
+            ms = re.search(r"\]\s*(\d+)%N\s*$", val) or re.search(r"\[\]\s*(\d+)%N\s*$", val)
+            if ms:
+                max_steps = max(max_steps, int(ms.group(1)))
             bad = {}
             for m in re.finditer(r"\((\d+)%N,\s*(VMismatch|VFuel|VUnsupported|VStuck)", val):
                 idx, kind = int(m.group(1)), m.group(2)
@@ -141,7 +147,7 @@ for name, (text, batch) in files.items():
                     continue
                 kind, txt = bad[ci]
                 if kind == "VFuel":
-                    discards["fuel"] += 1
+                    fuel_cases.append((p, fm, ci, txt))
                 elif kind == "VUnsupported":
                     discards["unsupported"] += 1
                     code = re.search(r"VUnsupported (\d+)", txt)
@@ -172,6 +178,16 @@ for p, fm, ci, txt in mismatches[:40]:
     key = "%s:%s:%s:%s:%s" % (p["Origin"], p["Name"] if p["Origin"] == "corpus" else p["Seed"], d["function"], ci, fm)
     ck.violation(key, "IR (%s) of %s.%s disagrees with the compiled program on input {%s}: model says %s" % (
         FORMNAME[fm], p["Name"], d["function"], d["inputs"], re.sub(r"\s+", " ", txt)[:400]), replay_obj(p, fm, ci, txt))
+# OutOfFuel: the compiled program terminated.  If the fuel exceeds 50x the longest agreeing execution of this
+# run the IR execution is reported as non-terminating; otherwise the case is discarded (and counted).
+if fuel_cases and FUEL >= 50 * max(1, max_steps):
+    for p, fm, ci, txt in fuel_cases[:40]:
+        d = case_desc(p, ci)
+        key = "diverges:%s:%s:%s:%s:%s" % (p["Origin"], p["Name"] if p["Origin"] == "corpus" else p["Seed"], d["function"], ci, fm)
+        ck.violation(key, "executing the IR (%s) of %s.%s on input {%s} does not terminate within %d steps (longest agreeing execution of this run: %d steps) while the compiled program terminated" % (
+            FORMNAME[fm], p["Name"], d["function"], d["inputs"], FUEL, max_steps), replay_obj(p, fm, ci, txt))
+else:
+    discards["fuel"] += len(fuel_cases)
 for p, fm, ci, txt in stuck[:40]:
     d = case_desc(p, ci)
     key = "stuck:%s:%s:%s:%s:%s" % (p["Origin"], p["Name"] if p["Origin"] == "corpus" else p["Seed"], d["function"], ci, fm)
@@ -208,7 +224,8 @@ ck.finish({
     "programs": len(progs), "programs_executed": executed_progs, "program_status": status,
     "cases_per_form": ncases, "ground_truth_panics": npanics,
     "forms_evaluated": forms_distinct, "forms_identical_to_evaluated": forms_same,
-    "agree": okcount, "mismatches": len(mismatches), "stuck": len(stuck),
+    "agree": okcount, "mismatches": len(mismatches), "stuck": len(stuck), "out_of_fuel": len(fuel_cases),
+    "fuel": FUEL, "max_steps_of_agreeing_case": max_steps,
     "discarded": disc, "discard_rate": round(disc / max(1, evaluations), 4), "discards": discards, "unsupported_codes": unsupp_codes,
     "ssa_discipline_rejected_functions": ssa_funcs_bad,
     "instruction_kinds_static": dict(sorted(kinds.items())),
